@@ -105,7 +105,14 @@ func (c *compressor) decompressCellblocks(b []byte) ([]byte, error) {
 			return nil, fmt.Errorf("failed to read uncompressed block length: %w", err)
 		}
 
-		out = slices.Grow(out, int(uncompressedBlockLen))
+		// The declared length is only a hint for pre-allocation: don't
+		// reserve more than the rest of the stream could plausibly expand to,
+		// or a few corrupt bytes make us ask for gigabytes.
+		grow := int(uncompressedBlockLen)
+		if limit := 64 * len(b); grow > limit {
+			grow = limit
+		}
+		out = slices.Grow(out, grow)
 
 		// read and decompress encoded chunks until whole block is read
 		var uncompressedSoFar uint32
